@@ -120,6 +120,7 @@ class ModeStatistics:
         labels: np.ndarray,
         dof_fallback: float = DOF_FALLBACK,
         resample_factor: int = 4,
+        n_modes: int = None,
     ) -> "ModeStatistics":
         """
         Fit Student-t distributions to weighted particles per cluster.
@@ -143,6 +144,11 @@ class ModeStatistics:
             Multiplier for resampling particles for robust fitting.
             Each cluster is resampled to `n_cluster * resample_factor` particles.
             Default is 4.
+        n_modes : int, optional
+            Total number of clusters of the model that produced ``labels``. When given,
+            one mode is returned for every label in ``range(n_modes)`` so that mode ``k``
+            always belongs to label ``k``; a label that no particle carries gets a mode
+            fitted to all particles. When None (default), one mode per occurring label.
 
         Returns
         -------
@@ -169,10 +175,13 @@ class ModeStatistics:
         covariances = []
         degrees_of_freedom = []
 
-        unique_labels = np.unique(labels)
+        unique_labels = np.unique(labels) if n_modes is None else np.arange(n_modes)
         for label in unique_labels:
             # Extract particles for this cluster
             idx_cluster = np.where(labels == label)[0]
+            if len(idx_cluster) == 0:
+                # No particle was assigned to this cluster: fall back to all particles
+                idx_cluster = np.arange(len(labels))
             u_cluster = u[idx_cluster]
             weights_cluster = weights[idx_cluster]
             weights_cluster = weights_cluster / np.sum(weights_cluster)
